@@ -500,9 +500,14 @@ def signature(vk, attr, op, prev, cur, hi, hi_cur=None):
     hi_cur = hi if hi_cur is None else hi_cur
     k = op[0]
     s = site(op)
+    if vk == 'definition':
+        cl = labels_of(cur)
+        if attr == 'missing_labels' and cl and max(cl) >= hi_cur:
+            return 'max_label+1:label=dtype-max'
+        return f'attribute-definition:{attr}'
     if attr in POLY_ATTRS:
-        return (poly_class(cur) if vk in ('read-raises', 'per-label-count', 'raises-on-documented-arguments') else None) \
-            or f'polygons:{vk}'
+        return (poly_class(cur) if vk in ('read-raises', 'per-label-count', 'per-label',
+                                          'raises-on-documented-arguments') else None) or f'polygons:{vk}'
     if vk in ('deblend-absent', 'deblend-map-effect'):
         return 'deblend_label_map:names-absent-label'
     if vk == 'deblend-stale':
